@@ -29,6 +29,11 @@ def signed_specials(w, kind):
         s = [108600, 108599, 108601, -108600, 54600, 108000, -108000]
     else:
         s = [54600, 54599, 54601, -54600, 54000, -54000]
+    # round positions (the date line, the poles, the equator's neighbours, every 45 degrees), both signs
+    unit = 600000 if w >= 27 else 600
+    for deg in (180, 179, 135, 90, 89, 45, 1):
+        for d in (deg * unit, -deg * unit, deg * unit + 1, -deg * unit - 1, deg * unit - 1):
+            s.append(d)
     return vals + [x % m for x in s if -(1 << (w - 1)) <= x < (1 << (w - 1))]
 
 
@@ -49,6 +54,10 @@ def field_specials(name, w):
     for c in codes:
         for b in range(w):
             vals.add(c ^ (1 << b))
+        # ... and its negation at the field's own width (a comparison of magnitudes)
+        vals.add((-c) % (1 << w))
+        vals.add((-c - 1) % (1 << w))
+        vals.add((-c + 1) % (1 << w))
     return sorted(v for v in vals if 0 <= v < (1 << w))
 
 
@@ -127,7 +136,19 @@ def structured_mmsi(rng, family=None):
     return mid * 1000000 + rng.randrange(1000000)
 
 
+# application identifiers a decoder might know by name (IMO SN.1/Circ.289, inland ECE-TRANS, regional ones)
+KNOWN_DAC_FID = [(1, 11), (1, 16), (1, 21), (1, 22), (1, 24), (1, 31), (1, 40), (200, 10), (200, 21), (200, 24), (200, 55),
+                 (235, 10), (250, 10), (316, 1), (366, 22), (367, 33), (0, 0), (1023, 63), (1, 0)]
+
+
 def base_fields(t, rng, layout):
+    f = _base_fields(t, rng, layout)
+    if "dac" in f and "fid" in f and rng.random() < 0.4:
+        f["dac"], f["fid"] = rng.choice(KNOWN_DAC_FID)
+    return f
+
+
+def _base_fields(t, rng, layout):
     f = {}
     for (name, off, w) in layout:
         f[name] = rng.getrandbits(w)
@@ -164,6 +185,20 @@ def backgrounds(t, rng, layout):
             if name not in ("type", "partno"):
                 f[name] = ((1 << w) - 1) * fillv
         out.append(f)
+    # all zero with one flag set, all ones with one flag cleared (a rule keyed on "nothing but this flag")
+    for (name, off, w) in layout:
+        if w == 1 and name not in ("type", "partno"):
+            for fillv in (0, 1):
+                f = base_fields(t, rng, layout)
+                for (n2, o2, w2) in layout:
+                    if n2 not in ("type", "partno"):
+                        f[n2] = ((1 << w2) - 1) * fillv
+                f[name] = 1 - fillv
+                if rng.random() < 0.5:
+                    for (n2, o2, w2) in layout:
+                        if w2 == 30 and "mmsi" in n2:
+                            f[n2] = structured_mmsi(rng)
+                out.append(f)
     if any(n_ in ("hour", "eta_hour") for (n_, o_, w_) in layout):
         for tm in rng.sample(NOTABLE_TIMES, 4) + NOTABLE_TIMES[:2]:
             out.append(apply_notable_time(base_fields(t, rng, layout), tm))
@@ -234,6 +269,14 @@ def payload_cases(t, rng, n_random, walks=True):
         for tm in NOTABLE_TIMES:
             f = apply_notable_time(base_fields(t, rng, layout), tm)
             yield ("notable-time", full_payload(t, f) + tail_for(t, rng))
+    # two fields of the same width carrying the same (mid-range) value: nothing reported may depend on such a coincidence
+    wide = [(n_, w_) for (n_, o_, w_) in layout if n_ not in fixed and w_ >= 6]
+    pairs = [(a, b) for i, a in enumerate(wide) for b in wide[i + 1:] if a[1] == b[1]]
+    for (a, b) in (rng.sample(pairs, 10) if len(pairs) > 10 else pairs):
+        f = base_fields(t, rng, layout)
+        v = rng.randrange(1 << (a[1] - 2), (1 << a[1]) - 1) if a[1] != 30 else rng.choice([rng.randrange(10000000, 999999999), structured_mmsi(rng)])
+        f[a[0]] = f[b[0]] = v
+        yield ("equal-fields", full_payload(t, f) + tail_for(t, rng))
     if t == 16:
         # both destinations the same / related stations (a rule that compares fields of one message with each other)
         for _ in range(6):
